@@ -219,6 +219,34 @@ func genC12(e *emitter, r *rng, tier string) {
 		}
 		e.count("C12.prompt.multirange")
 	}
+	// ... and with the fault noticed while the LAST memoized digit is being formatted (position
+	// 100·j − 1 of a range that goes on): leaving the loop must not request the next block. Tiny
+	// outputs, one fresh Number per case, every fault point, small buffers.
+	bounds := []int{100, 200}
+	if tier == "thorough" {
+		bounds = []int{100, 200, 300, 1000, 2500}
+	}
+	for _, b := range bounds {
+		for _, bs := range []int{1, 2, 3, 5, 16} {
+			for _, lay := range []string{"R0.C0.S0", "R10.C5", "R7.C0.S0"} {
+				for v := 1; v <= 3; v++ {
+					for mode := 0; mode <= 2; mode++ {
+						if tier == "quick" && (mode+b/100+bs+v)%2 == 1 && lay != "R0.C0.S0" {
+							continue
+						}
+						for k := 0; k <= 46; k++ {
+							pre := ""
+							if k%3 == 1 {
+								pre = fmt.Sprintf("at:0:%d;", b-50)
+							}
+							emitScriptLine(e, v, "G:-1:1:0", fmt.Sprintf("%sfpr:0:r%d~%d:%s.B%d:%d:%d;cons", pre, b-11, b+9, lay, bs, mode, k))
+						}
+					}
+				}
+			}
+		}
+		e.count("C12.prompt.blockboundary")
+	}
 }
 
 func init() {
